@@ -89,6 +89,8 @@ type Interp struct {
 	ghost     map[string]Value
 	timeNow   *Term
 	bypass    map[string]int
+	spec      int
+	noMerge   bool
 	expectPanic bool
 }
 
@@ -103,7 +105,17 @@ func (it *Interp) newCell(v Value, t types.Type, tag string) *Cell {
 // Alternatives that are constant false are skipped. In replay-prefix mode the recorded choice is taken
 // without a solver call; otherwise every alternative's feasibility is decided by the solver, the
 // first feasible one is followed and the others are scheduled.
+type specAbort struct{}
+
 func (it *Interp) choose(alts []*Term, exhaustive bool) int {
+	if it.spec > 0 {
+		for i, a := range alts {
+			if a.IsTrue() {
+				return i
+			}
+		}
+		panic(specAbort{})
+	}
 	// fast path: constant alternatives
 	nonFalse := -1
 	cnt := 0
@@ -168,6 +180,9 @@ func (it *Interp) freeChoice(n int) int {
 	if n <= 1 {
 		return 0
 	}
+	if it.spec > 0 {
+		panic(specAbort{})
+	}
 	if it.pos < len(it.prefix) {
 		d := it.prefix[it.pos]
 		it.pos++
@@ -204,6 +219,9 @@ func (it *Interp) branch(c *Term) bool {
 func (it *Interp) concInt(t *Term) uint64 {
 	if t.IsConst() {
 		return t.cval
+	}
+	if it.spec > 0 {
+		panic(specAbort{})
 	}
 	var excl []uint64
 	replay := false
@@ -645,6 +663,7 @@ func (it *Interp) run(fr *frame) Value {
 
 func (it *Interp) runFrom(fr *frame, blk *ssa.BasicBlock) Value {
 	var prev *ssa.BasicBlock
+	skipPhis := false
 	for {
 		fr.visits[blk]++
 		if fr.visits[blk] > it.h.cfg.Unwind {
@@ -658,6 +677,9 @@ func (it *Interp) runFrom(fr *frame, blk *ssa.BasicBlock) Value {
 			}
 			switch x := ins.(type) {
 			case *ssa.Phi:
+				if skipPhis {
+					continue
+				}
 				for i, p := range blk.Preds {
 					if p == prev {
 						fr.env[x] = it.get(fr, x.Edges[i])
@@ -675,6 +697,13 @@ func (it *Interp) runFrom(fr *frame, blk *ssa.BasicBlock) Value {
 						panic(unsupported("branch on poison in init"))
 					}
 					panic(fmt.Sprintf("internal: If on %T", cv))
+				}
+				if !c.IsConst() && !fr.lenient && !it.noMerge {
+					if j := it.tryMerge(fr, blk, c); j != nil {
+						next = j
+						skipPhis = true
+						break
+					}
 				}
 				if it.branch(c) {
 					next = blk.Succs[0]
@@ -712,6 +741,11 @@ func (it *Interp) runFrom(fr *frame, blk *ssa.BasicBlock) Value {
 		}
 		if next == nil {
 			panic("internal: block without terminator")
+		}
+		if _, isIf := blk.Instrs[len(blk.Instrs)-1].(*ssa.If); !isIf || !skipPhis {
+			skipPhis = false
+		} else {
+			// merged: phis of next were already assigned
 		}
 		prev, blk = blk, next
 	}
@@ -1820,4 +1854,190 @@ func (it *Interp) lookupMethod(t types.Type, pkg *types.Package, name string) *s
 		return nil
 	}
 	return it.prog.MethodValue(sel)
+}
+
+// ---------------------------------------------------------------- if-conversion of pure regions
+
+type specEdge struct {
+	pred  *ssa.BasicBlock
+	guard *Term
+}
+
+// tryMerge handles short-circuit conditions and small pure diamonds without forking: both sides
+// of the branch are evaluated speculatively (only side-effect-free instructions, no decisions), and
+// the phis of the join block become ite terms. Returns the join block, or nil to fork as usual.
+func (it *Interp) tryMerge(fr *frame, blk *ssa.BasicBlock, c *Term) *ssa.BasicBlock {
+	T, F := blk.Succs[0], blk.Succs[1]
+	J := findJoin(T, F)
+	if J == nil || len(J.Preds) < 2 {
+		return nil
+	}
+	var edges []specEdge
+	ok := false
+	saveSteps := it.steps
+	func() {
+		it.spec++
+		defer func() {
+			it.spec--
+			if r := recover(); r != nil {
+				switch r.(type) {
+				case specAbort, *goPanic:
+					ok = false
+					return
+				case *pathEnd:
+					if r.(*pathEnd).kind == "unsupported" {
+						ok = false
+						return
+					}
+				}
+				panic(r)
+			}
+		}()
+		ok = it.specRegion(fr, T, blk, c, J, 0, &edges) && it.specRegion(fr, F, blk, it.ts.Not(c), J, 0, &edges)
+	}()
+	it.top = fr
+	if !ok || len(edges) == 0 {
+		it.steps = saveSteps
+		return nil
+	}
+	// assign phis of J
+	type asg struct {
+		phi *ssa.Phi
+		v   Value
+	}
+	var asgs []asg
+	for _, ins := range J.Instrs {
+		phi, isPhi := ins.(*ssa.Phi)
+		if !isPhi {
+			break
+		}
+		var acc Value
+		for k := len(edges) - 1; k >= 0; k-- {
+			e := edges[k]
+			var ev Value
+			found := false
+			for i, p := range J.Preds {
+				if p == e.pred {
+					ev = it.get(fr, phi.Edges[i])
+					found = true
+					break
+				}
+			}
+			if !found {
+				return nil
+			}
+			if k == len(edges)-1 {
+				acc = ev
+				continue
+			}
+			at, ok1 := acc.(*Term)
+			et, ok2 := ev.(*Term)
+			if ok1 && ok2 && at.w == et.w && at.op != OpNum && et.op != OpNum {
+				acc = it.ts.Ite(e.guard, et, at)
+				continue
+			}
+			if !sameKey(acc, ev) {
+				return nil
+			}
+		}
+		asgs = append(asgs, asg{phi, acc})
+	}
+	for _, a := range asgs {
+		fr.env[a.phi] = a.v
+	}
+	return J
+}
+
+// findJoin looks for the nearest block where short pure paths from t and f meet.
+func findJoin(t, f *ssa.BasicBlock) *ssa.BasicBlock {
+	reach := func(b *ssa.BasicBlock) []*ssa.BasicBlock {
+		var out []*ssa.BasicBlock
+		seen := map[*ssa.BasicBlock]bool{}
+		frontier := []*ssa.BasicBlock{b}
+		for d := 0; d < 5 && len(frontier) > 0; d++ {
+			var nf []*ssa.BasicBlock
+			for _, x := range frontier {
+				if seen[x] {
+					continue
+				}
+				seen[x] = true
+				out = append(out, x)
+				if len(x.Instrs) > 12 {
+					continue
+				}
+				for _, s := range x.Succs {
+					nf = append(nf, s)
+				}
+			}
+			frontier = nf
+		}
+		return out
+	}
+	rt := reach(t)
+	rf := map[*ssa.BasicBlock]bool{}
+	for _, b := range reach(f) {
+		rf[b] = true
+	}
+	for _, b := range rt {
+		if rf[b] && len(b.Preds) >= 2 {
+			return b
+		}
+	}
+	return nil
+}
+
+func (it *Interp) specRegion(fr *frame, b, pred *ssa.BasicBlock, g *Term, J *ssa.BasicBlock, depth int, edges *[]specEdge) bool {
+	if b == J {
+		*edges = append(*edges, specEdge{pred, g})
+		return true
+	}
+	if len(b.Preds) != 1 || depth > 4 || len(b.Instrs) > 12 {
+		return false
+	}
+	for _, ins := range b.Instrs {
+		switch x := ins.(type) {
+		case *ssa.Jump:
+			return it.specRegion(fr, b.Succs[0], b, g, J, depth+1, edges)
+		case *ssa.If:
+			c, ok := it.get(fr, x.Cond).(*Term)
+			if !ok {
+				return false
+			}
+			if c.IsConst() {
+				if c.cval == 1 {
+					return it.specRegion(fr, b.Succs[0], b, g, J, depth+1, edges)
+				}
+				return it.specRegion(fr, b.Succs[1], b, g, J, depth+1, edges)
+			}
+			return it.specRegion(fr, b.Succs[0], b, it.ts.And(g, c), J, depth+1, edges) &&
+				it.specRegion(fr, b.Succs[1], b, it.ts.And(g, it.ts.Not(c)), J, depth+1, edges)
+		case *ssa.Phi:
+			fr.env[x] = it.get(fr, x.Edges[0])
+		case *ssa.BinOp, *ssa.Field, *ssa.Extract, *ssa.Convert, *ssa.ChangeType, *ssa.ChangeInterface,
+			*ssa.MakeInterface, *ssa.FieldAddr, *ssa.IndexAddr, *ssa.Index, *ssa.Lookup, *ssa.DebugRef, *ssa.Slice:
+			it.steps++
+			it.exec(fr, ins)
+		case *ssa.UnOp:
+			if x.Op.String() == "<-" {
+				return false
+			}
+			it.steps++
+			it.exec(fr, ins)
+		case *ssa.TypeAssert:
+			if !x.CommaOk {
+				return false
+			}
+			it.exec(fr, ins)
+		case *ssa.Call:
+			// only length-like builtins
+			if bi, ok := x.Call.Value.(*ssa.Builtin); ok && (bi.Name() == "len" || bi.Name() == "cap" || bi.Name() == "min" || bi.Name() == "max") {
+				it.exec(fr, ins)
+				continue
+			}
+			return false
+		default:
+			return false
+		}
+	}
+	return false
 }
